@@ -156,6 +156,9 @@ def call_production(it, path, sp, dest_ty):
         r = hook(it, name, path, sp, dest_ty)
         if r is not None:
             return r
+    r = inline_helper(it, name, sp)
+    if r is not None:
+        return r
     summ = it.env.get('summaries', {}).get(name)
     g.calls += 1
     okb = g.fresh('ok_' + name, 'Bool')
@@ -185,6 +188,63 @@ def call_production(it, path, sp, dest_ty):
             return nom_failure(it, sp)
     g.log.append(('err', name))
     return nom_error(it, sp)
+
+
+_HELPER_INFO = {}
+
+
+def helper_info(name):
+    """(entry, result type) for un-annotated helper functions of the grammar crate whose result is not a syntax-tree node
+    (a tuple / Option / Vec of nodes shared by several productions): they are executed from their own MIR inside the caller
+    instead of being replaced by a contract, because callers take their result apart"""
+    if name in _HELPER_INFO:
+        return _HELPER_INFO[name]
+    import gprod, engine
+    info = None
+    try:
+        prods = gprod.productions(engine.prog()) if not getattr(gprod, '_PRODS_INFO', None) else gprod._PRODS_INFO
+        gprod._PRODS_INFO = prods
+        pi = prods.get(name)
+        if pi is not None and pi[0] == 'plain':
+            hdr = pi[2].header
+            k = hdr.find(') -> Result<(LocatedSpan<&str, SpanInfo>, ')
+            if k >= 0:
+                rest = hdr[k + len(') -> Result<(LocatedSpan<&str, SpanInfo>, '):]
+                # cut the closing paren of the (span, T) pair
+                depth = 0
+                out = []
+                for ch in rest:
+                    if ch in '(<[':
+                        depth += 1
+                    elif ch in ')>]':
+                        if depth == 0:
+                            break
+                        depth -= 1
+                    out.append(ch)
+                ty = ''.join(out).strip()
+                if ty.startswith('(') or ty.startswith('Option<') or ty.startswith('std::option::Option<') or ty.startswith('Vec<') or ty.startswith('std::vec::Vec<'):
+                    info = (pi[1], ty)
+    except Exception:
+        info = None
+    _HELPER_INFO[name] = info
+    return info
+
+
+def inline_helper(it, name, sp):
+    if name == it.env.get('self_name'):
+        return None
+    info = helper_info(name)
+    if info is None:
+        return None
+    depth = it.env.get('inline_depth', 0)
+    if depth >= 4:
+        return None
+    it.env['inline_depth'] = depth + 1
+    try:
+        gs(it).log.append(('inline', name))
+        return it.run_func(it.prog.func(info[0]), [sp])
+    finally:
+        it.env['inline_depth'] = depth
 
 
 def apply_effect(it, eff, name):
@@ -598,6 +658,83 @@ def install(mdl, production_names=None):
         return NotImplemented
     mdl.pre_hooks.append(abs_trim)
 
+    # look-ahead at the bytes of the remaining input (s.fragment().as_bytes().first(), chars().next(), starts_with(..)):
+    # lexical mode reads the symbolic byte of the text; abstract mode yields an unconstrained byte (memoised per position)
+    def peek_byte(it, frag, k):
+        off = frag.off
+        lx = it.env.get('lex')
+        if lx is not None:
+            if E.is_sym(off):
+                raise Inconclusive('look-ahead at a symbolic offset in lexical mode')
+            limit = off + frag.n if not E.is_sym(frag.n) else lx.n
+            if off + k >= min(lx.n, limit):
+                return None
+            return lx.b[off + k]
+        g = gs(it)
+        if not it.decide(frag.n > k, 'peek-has-byte'):
+            return None
+        memo = g.__dict__.setdefault('peeked', {})
+        key = (str(off), k)
+        if key not in memo:
+            b = g.fresh('byte')
+            it.assume(z3.And(b >= 0, b <= 255))
+            memo[key] = b
+        return memo[key]
+
+    def abs_peek(it, ci, a, d):
+        if not a:
+            return NotImplemented
+        v = deref(a[0])
+        nm = ci.name
+        if type(v) is AbsFrag and v.off is not None:
+            if nm in ('as_bytes', 'bytes') and '<impl str>' in ci.path:
+                return Ref([Opaque('AbsBytes', {'frag': v, 'pos': 0})], 0) if nm == 'as_bytes' else Opaque('AbsBytes', {'frag': v, 'pos': 0})
+            if nm == 'chars' and '<impl str>' in ci.path:
+                return Opaque('AbsBytes', {'frag': v, 'pos': 0, 'chars': True})
+            if nm == 'starts_with' and '<impl str>' in ci.path:
+                pat = deref(a[1])
+                if type(pat) is Char:
+                    pat = pat.c
+                if isinstance(pat, str) and pat.isascii():
+                    conds = []
+                    for i, ch in enumerate(pat):
+                        b = peek_byte(it, v, i)
+                        if b is None:
+                            return False
+                        conds.append(b == ord(ch))
+                    return it.decide(z3.And(conds) if conds else True, 'starts_with')
+                if type(pat) in (Closure, FnItem):
+                    b = peek_byte(it, v, 0)
+                    if b is None:
+                        return False
+                    lx = it.env.get('lex')
+                    cands = lx.alphabet if lx is not None else [chr(c) for c in range(128)]
+                    acc = [c for c in cands if it.call_value(pat, [Char(c)]) is True]
+                    if lx is None:
+                        it.assume(b < 128)     # abstract mode: ASCII look-ahead only (stated bound)
+                    return it.decide(z3.Or([b == ord(c) for c in acc]) if acc else False, 'starts_with_pred')
+                return NotImplemented
+        if type(v) is Opaque and v.kind == 'AbsBytes':
+            st = v.data
+            if nm in ('first', 'next', 'peek') or (nm == 'get' and len(a) > 1 and isinstance(a[1], int)) or (nm == 'nth' and len(a) > 1 and isinstance(a[1], int)):
+                k = st['pos'] + (a[1] if nm in ('get', 'nth') else 0)
+                b = peek_byte(it, st['frag'], k)
+                if nm in ('next', 'nth'):
+                    st['pos'] = k + 1
+                if b is None:
+                    return none()
+                if st.get('chars') and it.env.get('lex') is None:
+                    it.assume(b < 128)         # abstract mode: a char look-ahead is decided for ASCII only (stated bound)
+                return some(Ref([b], 0)) if nm in ('first', 'get', 'peek') else some(b)
+            if nm == 'is_empty':
+                return peek_byte(it, st['frag'], st['pos']) is None
+            if nm == 'len' and not st['pos']:
+                return st['frag'].n
+            if nm in ('peekable', 'into_iter', 'iter', 'copied', 'cloned', 'by_ref'):
+                return a[0]
+        return NotImplemented
+    mdl.pre_hooks.append(abs_peek)
+
     def make_error(it, ci, a, d):
         return Opaque('GreedyError', {'pos': a[0].data['off'] if type(a[0]) is Opaque else None})
     ov(r'^nom::error::make_error', make_error)
@@ -658,6 +795,12 @@ def const_hook_tls(it, name):
         v = fifo_take(fr, 'nom:' + m.group(1)) if fr is not None else None
         if v is not None:
             return NoCache(v)
+        # no creation in this activation: rebuild the parser from its type when its only captures are function items
+        # ({closure@nom::bytes::complete::take_while1<fn(char) -> bool {is_space}, ..>})
+        kind = m.group(1)
+        fns = re.findall(r'fn\([^)]*\)(?: -> [^{},]+?)? \{([^{}]+)\}', name)
+        if kind in ('take_while', 'take_while1', 'take_till', 'take_till1', 'satisfy') and len(fns) == 1:
+            return NoCache(parser(kind, FnItem(fns[0].strip())))
         raise Inconclusive('zero-sized nom parser constant without a creation site: %s' % name[:100])
     return None
 
